@@ -32,7 +32,11 @@ mod votor;
 use std::marker::{Send, Sync};
 use std::num::NonZeroU64;
 use std::sync::Arc;
+#[cfg(not(feature = "verif-hooks"))]
 use std::time::{Duration, Instant};
+// verification harnesses run nodes under tokio's paused clock: measure elapsed time on that clock
+#[cfg(feature = "verif-hooks")]
+use {std::time::Duration, tokio::time::Instant};
 
 use anyhow::Result;
 use fastrace::Span;
